@@ -29,6 +29,7 @@ FUNCS = [
     ("cfun_channel_capacity", False),
     ("cfun_channel_count", False),
     ("janet_chan_deinit", False),
+    ("janet_loop1", False),          # supervisor event: lock; closed ? unlock : push_with_lock(.., 2)
 ]
 
 _LOCK = re.compile(r"\bjanet_chan_lock\s*\(")
